@@ -22,7 +22,8 @@ RULE = (
     "factors {1e-3, 1e-2, 1, 1e3, 1e5} (60 maps; angle 0/90 maps are applied exactly in Fractions to integer data). For each (pair, "
     "map): T(A) op T(B) for op in | & - ^ and ~T(A) on the real code; membership of T(w) in the result for every arrangement-face "
     "witness w of the unmapped pair (curved: 21x21 grid with clearance) must equal the reference membership of w in A op B; same kind "
-    "as at T = identity; area = s^2 x area at identity (rel 1e-6); T(B) in T(A) iff B subset of A; T(p) in T(A) iff p in A. "
+    "as at T = identity; area = s^2 x area at identity (rel 1e-6); T(B) in T(A) iff B subset of A; T(p) in T(A) iff p in A, also for points at 1e-2*size (and 1e-3*size for scale >= 1) on both sides "
+    "of every second curved arc (the sagitta band). "
     "non-trivial = boundaries cross; distinct = (pair, map, operator)."
 )
 ASSUMPTIONS = [
@@ -239,6 +240,43 @@ def run_case(spec):
         if st != "ok" or bool(got) != (exp == rg.IN):
             fail("T(p) in T(A)", "%r for p = %s which is %s A" % (got if st == "ok" else st, oc.fmt_pt(w), exp))
             break
+    # sagitta band of curved boundaries: points just inside / outside every second arc
+    if curved:
+        offs = (F(1, 100), F(1, 1000)) if s >= 1 else (F(1, 100),)
+        for who, reg, build_e in (("A", ra, ea), ("B", rb, eb)):
+            S = build_mapped(build_e, fn, exact)
+            done = False
+            for cv in reg.curves():
+                for si, sg in enumerate(cv.segs):
+                    if len(sg) == 2 or si % 2:
+                        continue
+                    d1 = rg.bez_deriv(sg)
+                    for t in (F(1, 4), F(1, 2), F(3, 4)):
+                        p0 = rg.bez_eval(sg, t)
+                        tx, ty = rg.bez_eval(d1, t)
+                        ln = F(int((float(tx) ** 2 + float(ty) ** 2) ** 0.5 * 10**6) or 1, 10**6)
+                        for off in offs:
+                            for sgn in (1, -1):
+                                w = (p0[0] - sgn * off * size * ty / ln, p0[1] + sgn * off * size * tx / ln)
+                                exp = reg.contains(w)
+                                if exp == rg.ON or reg.near_boundary(w, off * size / 2):
+                                    continue
+                                q = img(w)
+                                st, got = call_limited(lambda: q in S, 60)
+                                evals += 1
+                                hist["band-points"] = hist.get("band-points", 0) + 1
+                                if st != "ok" or bool(got) != (exp == rg.IN):
+                                    fail("T(p) in T(%s) band" % who, "%r for p = %s at %s*size from an arc, p is %s %s" % (got if st == "ok" else st, oc.fmt_pt(w), float(off), exp, who))
+                                    done = True
+                                    break
+                            if done:
+                                break
+                        if done:
+                            break
+                    if done:
+                        break
+                if done:
+                    break
     hist["map-exact" if exact else "map-float"] = 1
     return {"violations": viols, "evals": evals, "nontrivial": nontrivial, "hist": hist, "sample": {"pair": name, "map": map_name(m), "witnesses": len(wits)}}
 
